@@ -157,6 +157,19 @@ enum Leaf {
     Broken(String),
 }
 
+/// a range is the same range whichever way round its corners are written: rows and columns
+/// are ordered separately, each coordinate keeping its own `$`
+fn canon(l: &Leaf) -> Leaf {
+    match l.clone() {
+        Leaf::Range { sheet, named, ar1, ac1, r1, c1, ar2, ac2, r2, c2 } => {
+            let ((ra, rfa), (rb, rfb)) = if r1 <= r2 { ((r1, ar1), (r2, ar2)) } else { ((r2, ar2), (r1, ar1)) };
+            let ((ca, cfa), (cb, cfb)) = if c1 <= c2 { ((c1, ac1), (c2, ac2)) } else { ((c2, ac2), (c1, ac1)) };
+            Leaf::Range { sheet, named, ar1: rfa, ac1: cfa, r1: ra, c1: ca, ar2: rfb, ac2: cfb, r2: rb, c2: cb }
+        }
+        other => other,
+    }
+}
+
 fn unnamed(l: &Leaf) -> Leaf {
     match l.clone() {
         Leaf::Ref { sheet, ar, ac, r, c, .. } => Leaf::Ref { sheet, named: false, ar, ac, r, c },
@@ -975,7 +988,7 @@ fn check_op(pre: &Pre, op: &Op, post: &Snap, post_model: &Model, values: bool, c
                     out.leaves += 1;
                     // a cut to another sheet spells out the sheet of what stays behind
                     let cross = matches!(op, Op::Cut { ss, ds, .. } if ss != ds);
-                    if want != have && !(cross && unnamed(want) == unnamed(have)) {
+                    if canon(want) != canon(have) && !(cross && canon(&unnamed(want)) == canon(&unnamed(have))) {
                         out.diff.push(DiffLine { facet: "formula.leaf".into(), at: format!("{}#{k}", at(q)), expected: format!("{want:?} (was {:?} in {})", f0.leaves[k], at(*p)), actual: format!("{have:?}") });
                     }
                 }
@@ -1100,7 +1113,7 @@ fn check_cf(pre: &Pre, op: &Op, post_model: &Model) -> (Vec<DiffLine>, u64) {
                         let ok = match e {
                             Expect::Any => true,
                             Expect::Broken => matches!(have, Leaf::Broken(_)),
-                            Expect::Exact(w) => w == have,
+                            Expect::Exact(w) => canon(w) == canon(have),
                         };
                         if !ok {
                             d.push(DiffLine { facet: "cf.formula".into(), at: format!("{si}#{k}.{j}"), expected: format!("{e:?} (rule formula {text})"), actual: format!("{have:?} (rule formula {post_text})") });
@@ -1392,7 +1405,7 @@ impl Oracle for Structural {
                             };
                             let ok = match &want {
                                 None => matches!(l1, Leaf::Broken(_)),
-                                Some(w) => w == l1,
+                                Some(w) => canon(w) == canon(l1),
                             };
                             if !ok {
                                 diffs.push(DiffLine { facet: "formula.leaf".into(), at: format!("{}#{k}", at(q)), expected: format!("{want:?} (copy of {l0:?} in {})", at(p)), actual: format!("{l1:?}") });
